@@ -301,7 +301,7 @@ def exec_loop(e, st, names, fns, depth):
 
 # ---------------------------------------------------------------------------
 def pattern_ops(p):
-    """slice pattern -> (list of [set of variant names, bindings], has_rest)"""
+    """slice pattern -> (list of {variants, binds, concrete, cases:[(variant, binds)]}, has_rest)"""
     if p.get("p") != "slice":
         return None, False
     ops = []
@@ -312,21 +312,45 @@ def pattern_ops(p):
             continue
         vs = set()
         binds = []
+        percase = []
         cases = el["cases"] if el.get("p") == "or" else [el]
         concrete = True
         for c in cases:
             if c.get("p") in ("ts", "path"):
                 vs.add(lastseg(c["path"]))
+                cb = []
                 if c.get("p") == "ts":
                     for sub in c["elems"]:
                         if sub.get("p") == "ident":
-                            binds.append(sub["name"])
+                            cb.append(sub["name"])
                         elif sub.get("p") == "tuple":
-                            binds.extend(x["name"] for x in sub["elems"] if x.get("p") == "ident")
+                            cb.extend(x["name"] for x in sub["elems"] if x.get("p") == "ident")
+                percase.append((lastseg(c["path"]), cb))
+                for b in cb:
+                    if b not in binds:
+                        binds.append(b)
             else:
                 concrete = False
-        ops.append({"variants": vs, "binds": binds, "concrete": concrete})
+        ops.append({"variants": vs, "binds": binds, "concrete": concrete, "cases": percase})
     return ops, rest
+
+
+def expand_alternatives(pops, limit=64):
+    """an arm whose elements are or-patterns stands for the cross product of single-instruction windows;
+    each is analysed on its own (merging three arms into one with nested or-patterns also admits the mixed windows)"""
+    import itertools
+    if not pops or all(len(p["cases"]) <= 1 for p in pops) or not all(p["concrete"] for p in pops):
+        return [pops]
+    axes = [p["cases"] if p["cases"] else [(None, [])] for p in pops]
+    n = 1
+    for a in axes:
+        n *= len(a)
+    if n > limit:
+        return [pops]
+    out = []
+    for combo in itertools.product(*axes):
+        out.append([{"variants": {v}, "binds": list(b), "concrete": True, "cases": [(v, b)]} for v, b in combo])
+    return out
 
 
 def effect_of(T, name, args, binds_env):
@@ -375,7 +399,6 @@ def run(rec, F, S):
         rec.anchor_lost("F11", "the two VecCursor locals")
         return
     arms = ms[0]["arms"]
-    rec.floor(R, "window patterns", len(arms), 14)
     analysed = 0
     rewrites_seen = set()
     # unconditional transfers according to the handlers (needed by the dead-code arm)
@@ -390,9 +413,18 @@ def run(rec, F, S):
         falls = [o for o in normal if not any(n_[0] == "jump" for n_ in o[3])]
         if not falls:
             uncond.add(b)
+    virtual = []
     for arm in arms:
-        pops, rest = pattern_ops(arm["pat"])
-        pname = synq.pat(arm["pat"])[:70]
+        pops0, rest0 = pattern_ops(arm["pat"])
+        if pops0 is None:
+            virtual.append((arm, None, rest0, synq.pat(arm["pat"])[:70]))
+            continue
+        exps = expand_alternatives(pops0)
+        for pe in exps:
+            nm_ = synq.pat(arm["pat"])[:70] if len(exps) == 1 else "[" + ", ".join("|".join(sorted(x["variants"])) + ("(%s)" % ",".join(x["binds"]) if x["binds"] else "") for x in pe) + (", .." if rest0 else "") + "]"
+            virtual.append((arm, pe, rest0, nm_[:90]))
+    rec.floor(R, "single-instruction windows (or-patterns expanded)", len(virtual), 14)
+    for arm, pops, rest, pname in virtual:
         loc = "%s:%d" % (PEEPHOLE, arm["line"])
         if pops is None:
             if arm["pat"].get("p") != "wild":
